@@ -55,7 +55,7 @@ fn gen(rng: &mut Rng, _i: u64) -> String {
 		})
 	} else { None };
 	let base = setbase.unwrap_or(spec.image_base);
-	let img = Image { len, fill: if rng.chance(1, 6) { 0 } else { rng.range(1, 1000) as u32 }, hdr: spec.header_bytes(), pokes: {
+	let img = Image { len, fill: if rng.chance(1, 6) { 0 } else { rng.range(1, 1000) as u32 }, hdr: scrambled_header(&spec, rng), pokes: {
 		// plant NUL / sentinel zeros at a few places so that terminated reads succeed sometimes
 		let mut p = Vec::new();
 		for _ in 0..rng.below(6) {
